@@ -23,6 +23,9 @@ class LazyList(UserList):
             return [self[i] for i in indices]
         v = self.data[k]
         if callable(v):
+            if k < 0:
+                # the item reader locates the record by its non-negative index
+                k += len(self.data)
             v = v(k)
             self.data[k] = v
         return v
